@@ -7,4 +7,5 @@ INVARIANT Transitive
 INVARIANT InvalidLowest
 INVARIANT StrongerGreater
 INVARIANT Consistent
+INVARIANT SameAsProved
 CHECK_DEADLOCK FALSE
